@@ -299,6 +299,12 @@ def seq_items(eng, v, st):
     return None
 
 
+class ZipV:
+    """zip(a, b, ...) where some sequence has symbolic length: iteration stops at the shortest"""
+    def __init__(self, seqs):
+        self.seqs = seqs
+
+
 class EnumV:
     """enumerate(seq) over a sequence of symbolic length"""
     def __init__(self, seq):
@@ -384,7 +390,8 @@ def builtin(eng, name, args, kwargs, st):
     elif name == 'zip':
         seqs = [seq_items(eng, a, st) for a in args]
         if any(s is None for s in seqs):
-            raise OutOfSubset('zip over symbolic-length sequence')
+            yield ZipV(list(args)), st         # only usable as the iterable of a for loop (cut with an invariant)
+            return
         yield tuple(zip(*seqs)), st
     elif name == 'isinstance':
         # A3: parameter kinds are fixed by the contract; an array-kinded value is an ndarray
